@@ -3,6 +3,7 @@ CONSTANTS
   Fix = {"tail", "suffix", "epoch"}
   Taints = {}
   GenMode = TRUE
+  MaxSkip = 1
   MaxOps = 6
   MaxPost = 3
   MaxRecs = 9
